@@ -122,4 +122,6 @@ def regroupings():
 def regroup_terms():
     from renormalizer.model import Op
     return [Op(r"a^\dagger a", ["e0", "e1"], 0.559, [1, -1]), Op(r"a^\dagger a", ["e1", "e0"], 0.559, [1, -1]), Op(r"a^\dagger a", ["e0", "e0"], 0.3, [1, -1]),
-            Op(r"a^\dagger a", ["e1", "e1"], -0.2, [1, -1]), Op(r"a^\dagger a x", ["e0", "e0", "v"], 0.25, [1, -1, 0]), Op("x^2", "v", 0.6), Op("p^2", "v", 0.5)]
+            Op(r"a^\dagger a", ["e1", "e1"], -0.2, [1, -1]), Op(r"a^\dagger a x", ["e0", "e0", "v"], 0.25, [1, -1, 0]), Op("x^2", "v", 0.6), Op("p^2", "v", 0.5),
+            # the identity spelled explicitly over several dofs, with a prefactor: a constant, and the identity factor of a product
+            Op.identity(["e0", "e1"]) * 0.35, Op.identity(["e0", "e1"]) * Op("x", "v") * 0.45]
